@@ -88,7 +88,7 @@ def preload(srv, prefix=b""):
     now = srv.clock.now
     srv.store[prefix + b"n"] = Item(b"10", 0, 0, srv._next_cas(), now)
     srv.store[prefix + b"t"] = Item(b"text", 0, 0, srv._next_cas(), now)
-    srv.store[prefix + b"x4"] = Item(b"y" * 5000, 0, 0, srv._next_cas(), now)
+    srv.store[prefix + b"x4"] = Item((b"yEND\r\nVALUE t 0 1\r\n" + b"y" * 5000)[:5000], 0, 0, srv._next_cas(), now)      # (protocol text inside, more than one receive buffer)
     # stores of these keys are refused by the server (its item limit is lower than the client's idea of it / memory is
     # exhausted / a proxy could not complete the store)
     srv.refuse.update({prefix + b"toolarge": "too-large", prefix + b"oom": "oom", prefix + b"nostore": "not-stored"})
